@@ -60,8 +60,31 @@ func (c *Cluster) readDiskLog(dataDir string) ([]EntryInfo, uint64, error) {
 // image; stopped nodes: their directory) and records who holds (index, term, h).
 func (c *Cluster) diskCheck(index, term, h uint64, when string) {
 	var voters, holders []string
-	for id := range c.conf {
-		voters = append(voters, id)
+	var configs [][]string
+	if c.H.DynamicMembers {
+		// every node that exists may hold the entry; the voter sets are those the running nodes report
+		voters = append(voters, c.Order...)
+		seen := map[string]bool{}
+		for _, id := range c.Order {
+			if r := c.Nodes[id].Raft(); r != nil {
+				cf := r.Configuration()
+				var vs []string
+				for m, v := range cf.IsVoter {
+					if v {
+						vs = append(vs, m)
+					}
+				}
+				sort.Strings(vs)
+				if k := fmt.Sprint(vs); len(vs) > 0 && !seen[k] {
+					seen[k] = true
+					configs = append(configs, vs)
+				}
+			}
+		}
+	} else {
+		for id := range c.conf {
+			voters = append(voters, id)
+		}
 	}
 	sort.Strings(voters)
 	for _, id := range voters {
@@ -87,5 +110,5 @@ func (c *Cluster) diskCheck(index, term, h uint64, when string) {
 			}
 		}
 	}
-	c.rec.Add(Event{Kind: "disk", Disk: &DiskInfo{Index: index, Term: term, H: h, Voters: voters, Holders: holders, When: when}})
+	c.rec.Add(Event{Kind: "disk", Disk: &DiskInfo{Index: index, Term: term, H: h, Voters: voters, Holders: holders, When: when, Configs: configs}})
 }
